@@ -1,5 +1,5 @@
 use crate::sync::{Condvar, Mutex};
-use crate::tree_store::TransactionalMemory;
+use crate::tree_store::{BtreeHeader, TransactionalMemory};
 use crate::{Key, Result, Savepoint, TypeName, Value};
 use alloc::collections::BTreeSet;
 use alloc::collections::btree_map::BTreeMap;
@@ -279,19 +279,22 @@ impl TransactionTracker {
         state.persistent_savepoints.insert(id);
     }
 
+    // Returns the registered id together with the data root of that same commit. A reader must
+    // use this root: one fetched afterwards may belong to a newer, non-durable commit whose pages
+    // a registration on an older (durable) id does not protect from later non-durable commits.
     pub(crate) fn register_read_transaction(
         &self,
         mem: &TransactionalMemory,
-    ) -> Result<TransactionId> {
+    ) -> Result<(TransactionId, Option<BtreeHeader>)> {
         let mut state = self.state.lock()?;
-        let id = mem.get_last_committed_transaction_id()?;
+        let (id, data_root) = mem.get_last_committed_transaction_id_and_data_root()?;
         state
             .live_read_transactions
             .entry(id)
             .and_modify(|x| *x += 1)
             .or_insert(1);
 
-        Ok(id)
+        Ok((id, data_root))
     }
 
     pub(crate) fn deallocate_read_transaction(&self, id: TransactionId) {
